@@ -58,6 +58,7 @@ TrBcastReturn == /\ Is("bcast_return") /\ R.tid = 0
                       \E i \in 0..curN : i + 1 <= Len(R.slots) /\
                          ~((R.slots[i + 1] = 1) <=> (ended[i] = "ok")))
                  /\ BcastReturn /\ UNCHANGED outcome
+TrBcastUnwound == Is("bcast_unwound") /\ R.tid = 0 /\ BcastUnwind /\ Same
 TrPoolDrop    == Is("pool_drop") /\ R.tid = 0 /\ PoolDrop /\ Same
 TrSenderDrop  == Is("sender_drop") /\ R.tid = 0 /\ SenderDrop /\ Same
 TrRecv        == Is("recv") /\ R.tid \in W /\ Recv(R.tid, R.ok) /\ Same
@@ -85,7 +86,7 @@ TrNext ==
   \/ TrReset \/ TrEnd \/ TrThreadStart \/ TrThreadExit \/ TrBcastCall
   \/ TrHandleNew \/ TrMutexLock \/ TrChanNew \/ TrSpawn \/ TrSendOffer
   \/ TrSendDone \/ TrMutexUnlock \/ TrTaskBegin \/ TrTaskEnd \/ TrTaskPanic
-  \/ TrLoad \/ TrPark \/ TrHandleDrop \/ TrAtomDrop \/ TrBcastReturn
+  \/ TrLoad \/ TrPark \/ TrHandleDrop \/ TrAtomDrop \/ TrBcastReturn \/ TrBcastUnwound
   \/ TrPoolDrop \/ TrSenderDrop \/ TrRecv \/ TrHandleClone \/ TrFetchSub
   \/ TrUnpark \/ TrReceiverDrop \/ TrAccessDropped
 
